@@ -82,14 +82,14 @@ reg('C15', [('verus', 'jitter')], level='proof', trusted_base=TB_COMMON + TB_JIT
 
 reg('C02', [('static', 'forwarding'), ('verus', 'hc128')], thorough=[('static', 'forwarding'), ('verus', 'hc128'), ('kani', 'hc128_incrate'), ('kani', 'blockrng')], fallback=[('kani', 'hc128_incrate')], level='proof', trusted_base=TB_COMMON + ['T5 assumed: le::read_u32_into (LE words); BlockRng word delivery is dependency code (Kani, thorough)'],
     explanation='step_p/step_q against Wu\'s update/output functions, generate == 16 keystream steps at the current counter (all 32 unrolled calls, both phases, counter wrap), sixteen_steps/init == key/IV expansion W followed by 1024 initialisation steps, from_seed == init of the LE words; bridge lemma code association order == Wu\'s g1/g2/h1/h2',
-    assumptions=['Hc128Rng forwards to rand_core::block::BlockRng: words of each 16-word block are handed out in order (Kani harness on the real rand_core, thorough tier)'])
+    assumptions=['Hc128Rng is a newtype over rand_core::block::BlockRng: its RngCore/SeedableRng methods are the verbatim forwarding calls (static forwarding obligations, every run); BlockRng hands the words of each 16-word block out in order (Kani harnesses on the real rand_core: next_u32/next_u64 complete in the quick tier, fill_bytes bounded in the thorough tier)'])
 
 reg('C03', [('static', 'forwarding'), ('verus', 'isaac'), ('verus', 'isaac64')], thorough=[('static', 'forwarding'), ('verus', 'isaac'), ('verus', 'isaac64'), ('kani', 'isaac_incrate'), ('kani', 'isaac64_incrate'), ('kani', 'blockrng'), ('diff', 'isaac')],
     fallback=[('diff', 'isaac'), ('kani', 'isaac_incrate'), ('kani', 'isaac64_incrate')], level='proof',
     trusted_base=TB_COMMON + ['T4 Wrapping shim: local stand-in for core::num::Wrapping with verified operator impls (same operator semantics assumed; Kani cross-check)'],
     explanation='ind/rngstep/generate against Jenkins\' isaac()/isaac64() (all eight unrolled rngstep call sites, both halves, results in reference hand-out order), mix/init against randinit (golden-ratio premix re-derived by compute), seed_from_u64 key layout and single pass',
     assumptions=['from_seed (iterator zip) and from_rng/try_from_rng (unsafe raw-parts) are decided by Kani harnesses with a recording init stub (thorough tier)',
-                 'IsaacRng/Isaac64Rng forward to rand_core BlockRng/BlockRng64 (Kani, thorough tier)'])
+                 'IsaacRng/Isaac64Rng are newtypes over rand_core BlockRng/BlockRng64: verbatim forwarding (static forwarding obligations, every run); BlockRng/BlockRng64 word delivery decided by Kani on the real rand_core'])
 
 TB_KANI = ['T9 Kani 0.68 / CBMC 6.11: every harness runs with unwinding assertions; kani::assume only bounds an index or excludes a documented precondition']
 ALL_UNITS = [('verus', u) for u in ('xoshiro', 'xorshift', 'jitter', 'hc128', 'isaac', 'isaac64')]
